@@ -5,7 +5,7 @@ whenever it reports a freshly allocated result (`fresh = true`) the result is an
 `Panic` of `liftCrypto` is unreachable (`TClean`, lifted by `liftCrypto_clean`).
 
 Every `Panic` / `InternalError` constructor of `ClvmModel/Crypto/Ops.lean` is covered:
-* `"get_args arity"` (9 operators) and `"argc"` (g1_map, g2_map): the list returned by
+* `"get_args arity"` (8 operators) and `"argc"` (g1_map, g2_map): the list returned by
   `get_args::<N>` / `get_varargs` has the length that was just checked;
 * `"PRECOMPUTED_HASHES index"` (sha256 fast path): the index was compared with the table length;
 * `"sha256 hash is not 32 bytes"` (coinid): `sha256_len32`;
